@@ -442,7 +442,7 @@ func TestPropReplicatedWrites(t *testing.T) {
 
 // A replica that is down must make the primary refuse (not 2xx).
 func TestPropReplicaFailure(t *testing.T) {
-	vlib.Check(t, 8, 80, func(t *rapid.T) {
+	vlib.Check(t, 12, 100, func(t *rapid.T) {
 		c := cluster(t)
 		ar := assign(t, c, "001", "")
 		url := "http://" + ar.Url + "/" + ar.Fid
@@ -463,7 +463,12 @@ func TestPropReplicaFailure(t *testing.T) {
 			t.Fatalf("INCONCLUSIVE cannot identify primary/replica of volume %d (%v)", vid, holders(c, vid))
 		}
 		c.VolumeSrv[victim].Kill()
-		defer func() {
+		restarted := false
+		restart := func() {
+			if restarted {
+				return
+			}
+			restarted = true
 			if err := c.VolumeSrv[victim].Start(); err != nil {
 				t.Fatalf("INCONCLUSIVE restart: %v", err)
 			}
@@ -480,16 +485,28 @@ func TestPropReplicaFailure(t *testing.T) {
 				t.Fatalf("INCONCLUSIVE re-registration: %v", err)
 			}
 			time.Sleep(1500 * time.Millisecond) // one heartbeat so that the volume list is complete again
-		}()
-		op := rapid.SampledFrom([]string{"upload", "delete"}).Draw(t, "op")
+		}
+		defer restart()
+		op := rapid.SampledFrom([]string{"upload", "upload", "delete"}).Draw(t, "op")
 		ar2 := ar
 		var code int
 		var body []byte
 		var err error
+		var u upload
+		fid2 := ""
 		if op == "upload" {
 			// a fresh file id in the same volume (same primary)
-			u := genUpload("").Draw(t, "upload")
-			fid2 := fmt.Sprintf("%d,%x%08x", vid, uint64(rapid.Uint32Range(1<<20, 1<<30).Draw(t, "key")), rapid.Uint32().Draw(t, "cookie"))
+			u = genUpload("").Draw(t, "upload")
+			if storedMimeEmpty(u) && !u.gzipBody && vlib.Known("C40-replica-mime-sniffed") {
+				u.mime = "application/x-custom"
+			}
+			if u.ts == 0 && vlib.Known("C40-unchanged-retry-last-modified-diverges") {
+				// listed finding: without a client ts the primary keeps the write time of the failed
+				// attempt while the retried (unchanged) upload is forwarded with the new time
+				vlib.Excluded("C40-unchanged-retry-last-modified-diverges")
+				u.ts = 1600000123
+			}
+			fid2 = fmt.Sprintf("%d,%x%08x", vid, uint64(rapid.Uint32Range(1<<20, 1<<30).Draw(t, "key")), rapid.Uint32().Draw(t, "cookie"))
 			code, body, err = doUpload("http://"+ar.Url+"/"+fid2, u)
 			ar2 = &vlib.AssignResult{Fid: fid2}
 		} else {
@@ -501,7 +518,36 @@ func TestPropReplicaFailure(t *testing.T) {
 		if code/100 == 2 {
 			t.Fatalf("%s of %s answered %d (%s) although replica %s was down: the replicas cannot all hold the outcome", op, ar2.Fid, code, body, c.VolumeSrv[victim].Name)
 		}
-		vlib.Case(fmt.Sprintf("replica %s killed, %s on volume %d -> %d", c.VolumeSrv[victim].Name, op, vid, code), true, "fault-"+op)
+		trace := fmt.Sprintf("replica %s killed, %s on volume %d -> %d", c.VolumeSrv[victim].Name, op, vid, code)
+		// the client retries the very same operation once the replica is back: whatever the
+		// primary kept from the failed attempt, a success now must hold on every replica
+		if rapid.Bool().Draw(t, "retryAfterRecovery") {
+			restart()
+			if op == "upload" {
+				code, body, err = doUpload("http://"+ar.Url+"/"+fid2, u)
+				trace += fmt.Sprintf("; replica back, identical upload repeated -> %d", code)
+				if err != nil {
+					t.Fatalf("INCONCLUSIVE retry: %v", err)
+				}
+				if code/100 == 2 {
+					if e := checkReplicas(c, fid2, &u, false, 2); e != nil {
+						t.Fatalf("%v (%s)", e, trace)
+					}
+				}
+			} else {
+				code, _, body, err = vlib.Do("DELETE", url, nil, nil)
+				trace += fmt.Sprintf("; replica back, delete repeated -> %d", code)
+				if err != nil {
+					t.Fatalf("INCONCLUSIVE retry: %v", err)
+				}
+				if code/100 == 2 {
+					if e := checkReplicas(c, ar.Fid, nil, true, 2); e != nil {
+						t.Fatalf("%v (%s)", e, trace)
+					}
+				}
+			}
+		}
+		vlib.Case(trace, true, "fault-"+op)
 	})
 }
 
@@ -519,4 +565,52 @@ func TestFindingMimeSniffed(t *testing.T) {
 	e := checkReplicas(c, ar.Fid, &u, false, 2)
 	vlib.Finding(t, "C40-replica-mime-sniffed", e != nil && strings.Contains(e.Error(), "disagree on mime"), fmt.Sprint(e))
 	_ = io.EOF
+}
+
+// After a failed replicated upload without a client ts, the identical upload is repeated
+// once the replica is back: the primary answers "unchanged" and keeps the time of the failed
+// attempt, the replica gets the time of the retry.
+func TestFindingUnchangedRetryLastModified(t *testing.T) {
+	c := cluster(t)
+	ar, err := c.Assign("replication=001")
+	if err != nil {
+		t.Fatalf("INCONCLUSIVE assign: %v", err)
+	}
+	vid, _ := parseFid(ar.Fid)
+	warm := upload{content: []byte("warm-up"), mime: "application/x-custom", pairs: map[string]string{}}
+	if code, body, err := doUpload("http://"+ar.Url+"/"+ar.Fid, warm); err != nil || code/100 != 2 {
+		t.Fatalf("INCONCLUSIVE warm-up: %d %s %v", code, body, err)
+	}
+	primary, victim := serverIndex(c, ar.Url), -1
+	for _, h := range holders(c, vid) {
+		if h != primary {
+			victim = h
+		}
+	}
+	if victim < 0 {
+		t.Fatalf("INCONCLUSIVE no replica found")
+	}
+	c.VolumeSrv[victim].Kill()
+	u := upload{content: []byte("retried after the replica came back"), mime: "application/x-custom", pairs: map[string]string{}}
+	fid2 := fmt.Sprintf("%d,%x%08x", vid, uint64(0x7777777), uint32(0x1234abcd))
+	code1, _, _ := doUpload("http://"+ar.Url+"/"+fid2, u)
+	if err := c.VolumeSrv[victim].Start(); err != nil {
+		t.Fatalf("INCONCLUSIVE restart: %v", err)
+	}
+	deadline := time.Now().Add(90 * time.Second)
+	for time.Now().Before(deadline) {
+		code, _, _, err := vlib.Do("GET", c.VolumeURL(victim)+"/status", nil, nil)
+		if err == nil && code == 200 {
+			break
+		}
+		time.Sleep(200 * time.Millisecond)
+	}
+	if err := c.WaitVolumeServers(3, 90*time.Second); err != nil {
+		t.Fatalf("INCONCLUSIVE re-registration: %v", err)
+	}
+	time.Sleep(2500 * time.Millisecond)
+	code2, _, _ := doUpload("http://"+ar.Url+"/"+fid2, u)
+	e := checkReplicas(c, fid2, &u, false, 2)
+	rep := code1/100 != 2 && code2/100 == 2 && e != nil && strings.Contains(e.Error(), "last-modified")
+	vlib.Finding(t, "C40-unchanged-retry-last-modified-diverges", rep, fmt.Sprintf("upload with replica down -> %d; identical upload after recovery -> %d; %v", code1, code2, e))
 }
